@@ -18,7 +18,13 @@ pub(super) struct SourceParser<'a> {
   builtin_classes: HashSet<PStr>,
   class_source_map: HashMap<PStr, ModuleReference>,
   available_tparams: HashSet<PStr>,
+  /// How many expressions, patterns and type annotations are currently being parsed inside each other.
+  nesting_depth: usize,
 }
+
+/// Nesting beyond this is reported as a syntax error instead of overflowing the stack of the
+/// recursive-descent parser (and of every recursive pass that walks the tree afterwards).
+const MAX_NESTING_DEPTH: usize = 200;
 
 impl<'a> SourceParser<'a> {
   pub(super) fn new(
@@ -40,7 +46,27 @@ impl<'a> SourceParser<'a> {
       builtin_classes,
       class_source_map: HashMap::new(),
       available_tparams: HashSet::new(),
+      nesting_depth: 0,
     }
+  }
+
+  /// Enters one more level of nesting. When the limit is exceeded, reports it once and gives up
+  /// on the rest of the input so that error recovery does not have to unwind through it.
+  fn enter_nesting(&mut self) -> bool {
+    if self.nesting_depth >= MAX_NESTING_DEPTH {
+      let Token(loc, _) = self.peek();
+      self.report(loc, "Nesting is too deep.".to_string());
+      while !matches!(self.peek(), Token(_, TokenContent::EndOfFile)) {
+        drop(self.consume());
+      }
+      return false;
+    }
+    self.nesting_depth += 1;
+    true
+  }
+
+  fn exit_nesting(&mut self) {
+    self.nesting_depth -= 1;
   }
 
   fn peek(&mut self) -> Token {
@@ -682,7 +708,19 @@ mod expression_parser {
   use std::collections::HashMap;
 
   pub(super) fn parse_expression(parser: &mut super::SourceParser) -> expr::E<()> {
-    parse_match(parser)
+    if !parser.enter_nesting() {
+      return expr::E::Literal(
+        expr::ExpressionCommon {
+          loc: parser.peek().0,
+          associated_comments: NO_COMMENT_REFERENCE,
+          type_: (),
+        },
+        Literal::Int(0),
+      );
+    }
+    let e = parse_match(parser);
+    parser.exit_nesting();
+    e
   }
 
   pub(super) fn parse_expression_with_additional_preceding_comments(
@@ -1806,6 +1844,21 @@ mod pattern_parser {
     parser: &mut super::SourceParser,
     starting_comments: Vec<Comment>,
   ) -> pattern::MatchingPattern<()> {
+    if !parser.enter_nesting() {
+      return pattern::MatchingPattern::Wildcard {
+        location: parser.peek().0,
+        associated_comments: NO_COMMENT_REFERENCE,
+      };
+    }
+    let p = parse_matching_pattern_without_depth_check(parser, starting_comments);
+    parser.exit_nesting();
+    p
+  }
+
+  fn parse_matching_pattern_without_depth_check(
+    parser: &mut super::SourceParser,
+    starting_comments: Vec<Comment>,
+  ) -> pattern::MatchingPattern<()> {
     let first_pattern = parse_single_matching_pattern(parser, starting_comments);
     if let Token(_, TokenContent::Operator(TokenOp::Bar)) = parser.peek() {
       let mut patterns = vec![first_pattern];
@@ -2008,6 +2061,22 @@ mod type_parser {
   }
 
   pub(super) fn parse_annotation_with_additional_comments(
+    parser: &mut super::SourceParser,
+    associated_comments: Vec<Comment>,
+  ) -> annotation::T {
+    if !parser.enter_nesting() {
+      return annotation::T::Primitive(
+        parser.peek().0,
+        NO_COMMENT_REFERENCE,
+        annotation::PrimitiveTypeKind::Unit,
+      );
+    }
+    let t = parse_annotation_without_depth_check(parser, associated_comments);
+    parser.exit_nesting();
+    t
+  }
+
+  fn parse_annotation_without_depth_check(
     parser: &mut super::SourceParser,
     mut associated_comments: Vec<Comment>,
   ) -> annotation::T {
